@@ -263,7 +263,7 @@ NFILES = [
 DEFINES = [
     [b"X"], [b"X=1"], [b"X=(1+2)", b"Y=X"], [b"F(a,b)=((a)+(b))"], [b"F(x)=#x"], [b"F(a,b)=a##b"],
     [b"V(...)=__VA_ARGS__"], [b"V(a,...)=a __VA_OPT__(,) __VA_ARGS__"], [b"G()=1"], [b"X="], [b"Y=defined(X)"],
-    [b"X=\"str\""], [b"X='c'"], [b"Y=1/1"], [b"__cplusplus=201703L", b"X=__cplusplus"],
+    [b"X=\"str\""], [b"X='c'"], [b"Y=1/1"], [b"X=#pragma once"], [b"X=#define X 1", b"Y=#if 1"], [b"F(a)=#include \"main.h\""], [b"Y=#undef Y\n#pragma once"], [b"__cplusplus=201703L", b"X=__cplusplus"],
 ]
 
 DEFINE_MAIN = b"""
@@ -312,6 +312,9 @@ LINE_DICT = [
     b"__begin_publish", b"__end_publish", b"__published:", b"__make_property(", b"__make_property(a)", b"__make_property(a, b, c, d, e, f, g);",
     b"__make_seq(a, b);", b"__make_seq_property(a, b, c);", b"__make_map_property(m, a, b);", b"__extension", b"__blocking", b"__make_property2(",
     b"__make_map_keys_seq(a,b,c);",
+    b"#define K #pragma once", b"#define K #define K 1", b"#define K #undef K", b"#define K #include \"main.h\"", b"#define K #if 1",
+    b"#define K #endif", b"#define K #else", b"#define K #error e", b"#define K #line 5", b"#define K(a) #pragma once", b"#define K # define K # define K",
+    b"#if #pragma once", b"#if #define Q 1", b"#elif #include <string>", b"#define K \\\n#pragma once", b"#undef #define", b"#ifdef #if", b"#include #include",
     b"#pragma push_macro(\"X\")", b"#pragma pop_macro(\"X\")", b"#pragma push_macro(", b"#pragma pop_macro(\"\")",
     b"#pragma push_macro(\"defined\")", b"#pragma pop_macro(\"UNDEF\")", b"#pragma push_macro(\"F\")\n#pragma push_macro(\"F\")",
     b"#pragma push_macro(X)", b"#pragma pop_macro ( \"X\" ) trailing", b"#pragma once\n#pragma once", b"#undef UNDEFINED_NAME",
